@@ -294,6 +294,8 @@ void OPNMIDIplay::realTime_ResetState()
         noteUpdateAll(uint16_t(ch), Upd_All);
         noteUpdateAll(uint16_t(ch), Upd_Off);
     }
+    // The pedals were reset above: notes held only by them end, as on CC121
+    killSustainingNotes(-1, -1, OpnChannel::LocationData::Sustain_ANY);
     synth.m_masterVolume = MasterVolumeDefault;
 }
 
